@@ -120,18 +120,18 @@ def tables_recovery(reqs, index):
     return False
 
 
-def driver_layer(ctx, pid, grammars=None, inputs=None, exh=None):
+def driver_layer(ctx, pid, grammars=None, inputs=None, exh=None, extra=(), tag="lrdrive"):
     """layers 1–3: certificates + driver correspondence + exhaustive membership cross-check"""
     (exe,) = ctx.build_harness(["lrdrive"])
     n = grammars or ctx.vol(40, 500)
     k = inputs or ctx.vol(30, 80)
     e = exh if exh is not None else ctx.vol(4, 6)
-    out = os.path.join(ctx.scratch, "lrdrive")
-    rc, so, se = ctx.run_harness(exe, ["--seed", ctx.seed, "--n", n, "--out", out, f"inputs={k}", f"exh={e}"], timeout=3000)
+    out = os.path.join(ctx.scratch, tag)
+    rc, so, se = ctx.run_harness(exe, ["--seed", ctx.seed, "--n", n, "--out", out, f"inputs={k}", f"exh={e}"] + list(extra), timeout=3000)
     if rc != 0:
         ctx.fatal("lrdrive failed: " + se[-500:])
     stats = json.loads(so.strip().splitlines()[-1])
-    ctx.coverage.setdefault("driver_layer", {}).update({
+    ctx.coverage.setdefault("driver_layer" if tag == "lrdrive" else tag, {}).update({
         "grammars": stats["grammars"], "cases": stats["cases"], "distinct_tables": stats["distinct_tables"],
         "membership_checks": stats["members"], "membership_yes": stats["members_yes"],
         "generator_distribution": stats["hist"]})
@@ -140,11 +140,11 @@ def driver_layer(ctx, pid, grammars=None, inputs=None, exh=None):
         ctx.oblige("process_file verdict agrees with export_automaton conflicts", False, vm[:1500])
     for ef in stats["extract_fail"][:3]:
         ctx.oblige("table extraction from generated source", False, ef[:1500])
-    dis = ctx.correspond("driver+certificates (real Parser::drive, validate, member)", "lpm_lr", "lr", outdir=out, max_report=3)
+    dis = ctx.correspond(f"driver+certificates (real Parser::drive, validate, member) [{tag}]", "lpm_lr", "lr", outdir=out, max_report=3)
     reqs = open(os.path.join(out, "lr.req")).read().split("\n")
     ctxs = load_ctx(os.path.join(out, "lr.ctx"))
     certs = sum(1 for r in reqs if r == "validate")
-    ctx.coverage["driver_layer"]["certificates"] = certs
+    ctx.coverage["driver_layer" if tag == "lrdrive" else tag]["certificates"] = certs
     ctx.coverage["programs"] = ctx.coverage.get("programs", 0) + certs
     # hangs/panics on valid tables and in-range inputs are C08 failing inputs by themselves
     if pid == "C08":
@@ -182,13 +182,13 @@ def driver_layer(ctx, pid, grammars=None, inputs=None, exh=None):
     return stats, dis
 
 
-def compiled_layer(ctx, pid, grammars=None, inputs=None):
+def compiled_layer(ctx, pid, grammars=None, inputs=None, extra=(), tag="lrcompiled"):
     """layer 4: rustc-compiled generated parsers, both code generators"""
     (exe,) = ctx.build_harness(["lrcompiled"])
     n = grammars or ctx.vol(25, 250)
     k = inputs or ctx.vol(25, 60)
-    out = os.path.join(ctx.scratch, "lrcompiled")
-    rc, so, se = ctx.run_harness(exe, ["--seed", ctx.seed + 1000, "--n", n, "--out", out, f"inputs={k}"], timeout=3000)
+    out = os.path.join(ctx.scratch, tag)
+    rc, so, se = ctx.run_harness(exe, ["--seed", ctx.seed + 1000, "--n", n, "--out", out, f"inputs={k}"] + list(extra), timeout=3000)
     if rc != 0:
         ctx.fatal("lrcompiled failed: " + se[-500:])
     stats = json.loads(so.strip().splitlines()[-1])
